@@ -23,6 +23,8 @@ let parse_op (part : string) : op =
   | ["nop"] -> ONop
   | ["nthreads"] -> ONthreads
   | ["released"; k] -> OReleased (arg_n k)
+  | ["waitall"] -> OWaitAll
+  | ["fini"] -> OFini
   | _ -> raise Bad
 let parse_sec (sec : string) : op list =
   let t = String.trim sec in
@@ -90,11 +92,13 @@ let show_label = function
   | LTick d -> "LTick" ^ string_of_z d
 let show_tids l = if l = [] then "-" else String.concat "," (List.map (fun t -> string_of_int (ion t)) l)
 let state_letter = function NOTCREATED -> "N" | READY -> "Y" | RUNNING -> "R" | SLEEPING -> "S" | STANDBY -> "B" | DONE -> "D"
-let e4_dump nv n s =
+let e4_dump pr nv n s =
   let b = Buffer.create 256 in
+  let off v = v >= 0 && v < nv && offline pr s (nat_of_int v) in
   for v = 0 to nv - 1 do
     let vc = getvc s (nat_of_int v) in
     let sq = List.sort compare (List.map ion vc.v_sleepq) in
+    if off v then Buffer.add_string b (Printf.sprintf "V%d[off] " v) else
     Buffer.add_string b (Printf.sprintf "V%d[r=%s q=%s b=%s n=%s] " v (show_tids vc.v_runq)
       (if sq = [] then "-" else String.concat "," (List.map string_of_int sq)) (show_tids vc.v_standby) (string_of_z vc.v_nthreads))
   done;
@@ -107,6 +111,8 @@ let e4_dump nv n s =
     let in_switch = user && th.th_state = RUNNING && ion th.th_pc = 0 && ion th.th_k = 0 && ion th.th_vcpu < nv &&
       (let vc = getvc s th.th_vcpu in vc.v_pend <> PNone && (match vc.v_runq with c :: _ -> ion c = k | [] -> false)) in
     let cnt = if user then Printf.sprintf "c%d%d%d" (ion th.g_started - (if in_switch && ion th.g_started > 0 then 1 else 0)) (ion th.g_finished) (ion th.g_disposed) else "" in
+    (* a finalised vCPU: its main thread object and its idler are destroyed (vcpu_fini 2346-2348) *)
+    if (k < nv && off k) || (k >= n && off (k - n)) then Buffer.add_string b (Printf.sprintf "T%d=D " k) else
     match th.th_state with
     | NOTCREATED -> ()
     | DONE -> Buffer.add_string b (Printf.sprintf "T%d=D%s " k cnt)
@@ -135,7 +141,7 @@ let run_e4 (line : string) =
       let flags v = let i = ion v in if i < nv then (String.contains fls.(i) 'a', String.contains fls.(i) 'p') else (false, false) in
       let pr = nth_prog ps in
       let s = ref (init_state (nat_of_int nv) (nat_of_int n) flags (z_of_string "1000")) in
-      let segs = ref [ "init " ^ e4_dump nv n !s ] in
+      let segs = ref [ "init " ^ e4_dump pr nv n !s ] in
       let cls = ref false and clash = ref false in
       List.iter (fun w ->
         let c = parse_cmd w in
@@ -145,7 +151,7 @@ let run_e4 (line : string) =
         if phys_clash !s then clash := true;
         let evs = List.rev (take (List.length !s.s_trace - ntr) !s.s_trace) in
         segs := (Printf.sprintf "%s {%s} ev=%s %s" w (String.concat " " (List.map show_label labels))
-                   (if evs = [] then "-" else String.concat "," (List.map show_ev evs)) (e4_dump nv n !s)) :: !segs) cmds;
+                   (if evs = [] then "-" else String.concat "," (List.map show_ev evs)) (e4_dump pr nv n !s)) :: !segs) cmds;
       let pre = (if !s.s_stuck then "STUCK " else "") ^ (if !s.s_tie then "TIE " else "")
                 ^ (if !cls then "{F23CLASS} " else "") ^ (if !clash then "{F23RUN} " else "") in
       print_endline (pre ^ String.concat " ;; " (List.rev !segs))
